@@ -538,8 +538,8 @@ class TdmsChannel(object):
             return self.read_data()
         elif isinstance(index, slice):
             return self._read_slice(index.start, index.stop, index.step)
-        elif isinstance(index, int):
-            return self._read_at_index(index)
+        elif isinstance(index, (int, np.integer)):
+            return self._read_at_index(int(index))
         else:
             raise TypeError("Invalid index type '%s', expected int, slice or Ellipsis" % type(index).__name__)
 
